@@ -428,4 +428,8 @@ func checkC09(c *Ctx, r *Report) {
 	// Send; they say something about datagrams only if the transport writes the packet it is
 	// given exactly once (rule shared with C11, C10)
 	checkOneWriteOneRead(c, r)
+
+	// ---- rule 7: and there is no other way out: every Transport.Send call is in a retried
+	// operation, where the rules above apply (shared with C04, C10, C13, C18)
+	checkSendSites(c, r)
 }
